@@ -136,6 +136,16 @@ func profiles() map[string]profile {
 	p.denyPct, p.getFailPct = 15, 15
 	ps["counts"] = p
 
+	p = baseProfile("order") // events racing the loading of newly referenced resources
+	p.rids = []string{"c.a", "c.b", "m.a"}
+	p.eventKinds = []string{"add", "add", "remove", "custom", "custom", "custom", "change"}
+	p.reqKinds = []string{"subscribe", "subscribe", "unsubscribe"}
+	p.wEvent, p.wAnswer, p.wEvict, p.wRequest = 38, 26, 5, 14
+	p.wToken, p.wReset, p.wTokenReset, p.wSilent, p.wRawFrame, p.wDisconnect = 0, 0, 0, 0, 0, 1
+	p.denyPct, p.getFailPct, p.malformedPct = 0, 2, 0
+	p.maxClients = 2
+	ps["order"] = p
+
 	p = baseProfile("malformed")
 	p.malformedPct = 35
 	p.wRawFrame = 8
